@@ -125,6 +125,10 @@ def materialise(spec, scratch):
     route = spec['route']
     if route == 'numpy':
         return None
+    if route == 'segy_file':          # a SEG-Y fixture of the repository, read in place
+        from sim import env as _env
+        spec['src'] = os.path.join(_env.REPO, 'test_data', spec['file'])
+        return spec['src']
     path = os.path.join(scratch, f"in_{spec['id']}.sgy")
     if route == 'segy_2d':
         segygen.make_segy_2d(path, spec['shape'][0], spec['shape'][1], spec['data_seed'], fmt=spec['fmt'])
@@ -184,7 +188,7 @@ def converter_fn(spec, out_path):
 
     src = spec['src']
     kw = dict(bits_per_voxel=bits, blockshape=bs, header_detection=spec['detection'],
-              reduce_iops=(route == 'segy_iops'))
+              reduce_iops=(route == 'segy_iops' or bool(spec.get('iops'))))
 
     win = spec.get('window')
     ckw = dict(min_il=win[0], max_il=win[1], min_xl=win[2], max_xl=win[3]) if win else {}
